@@ -17,7 +17,33 @@ def call_arg(call: ast.Call, idx: Optional[int], name: Optional[str]) -> Optiona
         for k in call.keywords:
             if k.arg == name:
                 return k.value
+    # calls of the package's own functions carry the callee's parameter names (engine.canonical_internal_calls): an
+    # argument is found by name when it was passed by position, and by position when it was passed by keyword
+    params = getattr(call, "_sa_params", None)
+    if params and not any(isinstance(a, ast.Starred) for a in call.args):
+        if name is not None and name in params and params.index(name) < len(call.args):
+            return call.args[params.index(name)]
+        if idx is not None and idx < len(params):
+            for k in call.keywords:
+                if k.arg == params[idx]:
+                    return k.value
     return None
+
+
+def bound_arguments(call: ast.Call) -> List[Tuple[Optional[str], ast.expr]]:
+    """(parameter name, value) for every argument of the call, however it was passed: positional arguments of a call of the
+    package's own functions are named through the callee's parameter list (engine.canonical_internal_calls); the name is
+    None where it is not known (external callees, *args)."""
+    params = getattr(call, "_sa_params", None) or []
+    out: List[Tuple[Optional[str], ast.expr]] = []
+    starred = False
+    for i, a in enumerate(call.args):
+        if isinstance(a, ast.Starred):
+            starred = True
+        out.append((params[i] if (not starred and i < len(params)) else None, a))
+    for k in call.keywords:
+        out.append((k.arg, k.value))
+    return out
 
 
 def calls_in(node: ast.AST) -> List[ast.Call]:
